@@ -16,12 +16,21 @@
 """
 Service exception handling (WMS exceptions, XML, in_image, etc.).
 """
+import re
 from html import escape
 
 from mapproxy.response import Response
 from mapproxy.template import template_loader
 import mapproxy.service
 get_template = template_loader(mapproxy.service.__package__, 'templates')
+
+
+_xml_illegal_chars = re.compile('[\x00-\x08\x0b\x0c\x0e-\x1f\ufffe\uffff]')
+
+
+def escape_xml_text(msg):
+    """escape &<>"' and drop characters that XML 1.0 cannot represent (e.g. %00 from URL params)"""
+    return escape(_xml_illegal_chars.sub('', msg))
 
 
 class RequestError(Exception):
@@ -132,7 +141,7 @@ class XMLExceptionHandler(ExceptionHandler):
             status_code = self.status_codes.get(request_error.code, self.status_code)
 
         # escape &<> in error message (e.g. URL params)
-        msg = escape(request_error.msg)
+        msg = escape_xml_text(request_error.msg)
         result = self.template.substitute(exception=msg,
                                           code=request_error.code)
         return Response(result, mimetype=self.mimetype, content_type=self.content_type,
@@ -167,7 +176,7 @@ class OWSExceptionHandler(XMLExceptionHandler):
             status_code = self.status_codes.get(request_error.code, self.status_code)
 
         # escape &<> in error message (e.g. URL params)
-        msg = escape(request_error.msg)
+        msg = escape_xml_text(request_error.msg)
         result = self.template.substitute(exception=msg,
                                           code=request_error.code, locator=request_error.locator)
         return Response(result, mimetype=self.mimetype, content_type=self.content_type,
